@@ -121,6 +121,9 @@ def enc(v):
         return ['n']
     if isinstance(v, bool):
         return ['b', v]
+    if type(v).__module__ == 'numpy' and hasattr(v, 'item') and getattr(v, 'shape', None) == ():
+        # a numpy scalar (an item taken from an array): its == / != return numpy.bool_
+        return ['np', type(v).__name__, enc(v.item())]
     if isinstance(v, int):
         if not -2**31 < v < 2**31:
             return ['f', repr(v)]
@@ -174,6 +177,9 @@ def dec(d):
         return Fraction(d[1], d[2])
     if k == 'fl':
         return float.fromhex(d[1])
+    if k == 'np':
+        import numpy
+        return getattr(numpy, d[1])(dec(d[2]))
     if k == 'o':
         return Ambiguous.of(d[1])
     if k == 'nan':
